@@ -49,3 +49,23 @@ Proof. reflexivity. Qed.
 Example C10_old_enter_leaks :
   no_leak (SSeq (SAcq LColl) (SSeq (SAct T_LOAD) (SFinally (SAct T_BODY) (SFinally (SAct T_SAVE) (SRel LColl))))) = false.
 Proof. reflexivity. Qed.
+
+(* SOURCE TIE.  Gen/Contexts.v is regenerated from /repo's source (Python `ast`) on every run: `_LoadAndSave` and
+   `_BufferedLoadAndSave` translated statement by statement into programs with two holes (load, save).  The enter and exit
+   programs that every theorem above is about ARE those translations - syntactic equality, for every flavor, variant and
+   load flag.  A dropped try/finally, a conditional release or a reordered acquire in the source breaks these. *)
+From SC Require Import Model.Ctx Gen.Contexts.
+Theorem C10_enter_programs_are_the_source : forall fl v load,
+  p_enter fl v load = match fl with
+                      | FUnbuf => gen_ls_enter (p_load fl v) (p_save fl) load
+                      | _ => gen_bls_enter (p_load fl v) (p_save fl) load
+                      end.
+Proof. exact gen_enter_is_model. Qed.
+Print Assumptions C10_enter_programs_are_the_source.
+Theorem C10_exit_programs_are_the_source : forall fl,
+  p_exit fl = match fl with
+              | FUnbuf => gen_ls_exit SSkip (p_save fl) true
+              | _ => gen_bls_exit SSkip (p_save fl) true
+              end.
+Proof. exact gen_exit_is_model. Qed.
+Print Assumptions C10_exit_programs_are_the_source.
